@@ -414,7 +414,7 @@ def rule34(ctx, rep):
     r3 = rep.rule(
         'R-C12-3',
         'the reload fires only if the finished poller is still the active wait: update_trigger() in each done() is dominated by its own waiting_on_<x>()',
-        floor=3,
+        floor=6,
         breaks='a cancelled (overtaken) waiter triggers the reload although the stronger condition does not hold yet',
     )
     r4 = rep.rule(
@@ -431,6 +431,36 @@ def rule34(ctx, rep):
             dones = [prog.funcs[e.dst] for e in cbs if e.dst in prog.funcs and prog.funcs[e.dst].parent is not None and prog.funcs[e.dst].parent.qname == w.qname]
             if not dones:
                 raise AnalysisError(f'{w.qname}: no completion callback registered on the poller deferred')
+            # the callback that may fire the reload runs only when the poller *returned* (its condition held or it was
+            # cancelled), never when it died: registered as a success callback, with no errback before it that turns the
+            # failure into a result (added after seeded change C12-7: addErrback(log) followed by addBoth(done))
+            r3.instance()
+            regs = sorted(
+                (c for c in w.calls() if isinstance(c.func, ast.Attribute) and c.func.attr in ('addCallbacks', 'addCallback', 'addBoth', 'addErrback')),
+                key=lambda c: (c.lineno, c.col_offset),
+            )
+            problems = []
+            seen_errback = False
+            for c in regs:
+                tgt = prog.func_of(prog.resolve_in(c.args[0], w) or '') if c.args else None
+                is_done = tgt is not None and any(tgt.qname == d.qname for d in dones)
+                if c.func.attr == 'addBoth' and is_done:
+                    problems.append(f'{norm(c)[:50]} runs the callback on failure as well')
+                if c.func.attr in ('addCallback', 'addCallbacks') and is_done and seen_errback:
+                    problems.append(f'{norm(c)[:50]} follows an errback that turns a failure into a result')
+                if c.func.attr == 'addErrback' or (c.func.attr == 'addBoth' and not is_done):
+                    seen_errback = True
+                if c.func.attr == 'addCallbacks' and len(c.args) > 1:
+                    t2 = prog.func_of(prog.resolve_in(c.args[1], w) or '')
+                    if t2 is not None and any(t2.qname == d.qname for d in dones):
+                        problems.append(f'{norm(c)[:50]} registers the callback as errback')
+            r3.check(
+                not problems,
+                f'{w.qname}:fires-on-success-only',
+                where(w, regs[0] if regs else None),
+                'the completion callback is a success callback of the poller deferred',
+                f'{w.qname}: ' + '; '.join(problems) + ': a poller that raised (its condition never held) fires update_trigger()',
+            )
             for d in dones:
                 rep.analysed(d)
                 fl = _Done(prog, d, ev)
@@ -652,6 +682,7 @@ VARIANTS = [
     V('fallback handler narrowed to KeyError', 'B', 'pl/state.py', 'FSM.set_submit_info', 'except:', 'except KeyError:', 'R-C12-5'),
     V('fallback handler narrowed to ValueError', 'N', 'pl/state.py', 'FSM.set_submit_info', 'except:', 'except ValueError:', None),
     V('front end resets before gitting', 'B', 'fe/api/submit.py', 'Process.step_1', 'dawgie.context.fsm.gitting_trigger()', 'dawgie.context.fsm.reset()\n        dawgie.context.fsm.gitting_trigger()', 'R-C12-5'),
+    V('done registered for failures too', 'B', 'pl/state.py', 'FSM.wait_for_doing', 'self.doing_thread.addCallbacks(\n                done,', 'self.doing_thread.addBoth(done)\n            self.doing_thread.addCallbacks(\n                print,', 'R-C12-3'),
     V('crossroads with inverted first test', 'N', 'pl/state.py', 'FSM.submit_crossroads', 'if self.priority is None:\n                pass\n            elif', 'if', None),
     V('done with early return', 'N', 'pl/state.py', 'FSM.wait_for_crew', 'if self.waiting_on_crew():\n                self.update_trigger()\n                pass', 'if not self.waiting_on_crew():\n                return\n            self.update_trigger()', None),
 ]
